@@ -54,7 +54,7 @@ def _functions(path):
     n = len(lines)
     stop = n
     for j, ln in enumerate(lines):
-        if ln.startswith("#[cfg(test)]") and j + 1 < n and lines[j + 1].startswith("mod tests"):
+        if ln.startswith("#[cfg(test)]") and j + 1 < n and lines[j + 1].startswith("mod tests") and "{" in lines[j + 1]:
             stop = j
             break
         if ln.startswith("#[cfg(kani)]"):
@@ -105,13 +105,24 @@ def scan():
     return cen
 
 
+# small helpers every lexer-level harness runs through (real code, never stubbed except emit_error / push_mode)
+PLUMBING = {"mode", "pop_mode", "push_mode", "emit_error", "emit_error_info", "pending_stat", "set_pending_stat", "push_pending_stat",
+            "pop_pending_stat", "pending_token_text", "start_token", "mark_token_start", "emit_token", "emit_token_at_mark",
+            "emit_empty_macro_string_token", "add_line", "cur_byte_offset", "cur_char_offset", "prep_error_info_at_cur_offset",
+            "add_string_literal_from_src", "clear_checkpoint", "checkpoint", "rollback", "update_last_token"}
+
+
 def _encoded_functions(pid):
-    enc = set()
+    enc = set(PLUMBING)
     for h in registry.HARNESSES:
         if pid in h["props"]:
             for f in h["funcs"]:
-                enc.add(f.split("::")[-1])
+                enc.add(f.split("::")[-1].split(" ")[0])
     return enc
+
+
+def _is_encoded(name, enc):
+    return name in enc or any(e.endswith("*") and name.startswith(e[:-1]) for e in enc)
 
 
 def uncovered(cen, pid):
@@ -121,7 +132,7 @@ def uncovered(cen, pid):
     for kind in PROP_SITES.get(pid, []):
         for key in sorted(cen["sites"].get(kind, {})):
             name = key.split(":")[1]
-            if name not in enc:
+            if not _is_encoded(name, enc):
                 out.append(f"{key}[{kind}]")
     return out
 
@@ -133,3 +144,61 @@ def summary(cen):
         "source_sha256": hashlib.sha256(
             "".join(f"{k}={v['sha256']};" for k, v in sorted(cen["functions"].items())).encode()).hexdigest()[:16],
     }
+
+
+def changed_functions(depth=2):
+    """Names of the lexer functions whose source text differs between /repo's working tree and its HEAD commit,
+    plus their (transitive, up to `depth`) callers by name.  Used only to ORDER the secondary queries of the quick
+    tier (the ones that encode a changed function or a caller of it come first); it excludes nothing and decides
+    nothing.  Empty on an unchanged tree or when git is unavailable."""
+    import subprocess
+    import tempfile
+    changed = set()
+    cur = {}
+    for fn in FILES:
+        p = os.path.join(SRC, fn)
+        if not os.path.exists(p):
+            continue
+        now = {name: hashlib.sha256(text.encode()).hexdigest() for name, _, _, text in _functions(p)}
+        for name, _, _, text in _functions(p):
+            cur[name] = text
+        rel = os.path.relpath(p, kani.REPO)
+        try:
+            old_src = subprocess.run(["git", "-C", kani.REPO, "show", "HEAD:" + rel], capture_output=True, text=True, timeout=20)
+        except Exception:
+            return set()
+        if old_src.returncode != 0:
+            continue
+        if old_src.stdout == open(p, encoding="utf-8").read():
+            continue
+        with tempfile.NamedTemporaryFile("w", suffix=".rs", delete=False, encoding="utf-8") as tf:
+            tf.write(old_src.stdout)
+            tmp = tf.name
+        try:
+            old = {name: hashlib.sha256(text.encode()).hexdigest() for name, _, _, text in _functions(tmp)}
+        finally:
+            os.unlink(tmp)
+        for name, hsh in now.items():
+            if old.get(name) != hsh:
+                changed.add(name)
+        for name in old:
+            if name not in now:
+                changed.add(name)
+        if not (set(now) - set(n for n in now if old.get(n) == now[n])) and old_src.stdout != "":
+            # the file differs outside every function body (a constant, a type, an attribute): every function of it
+            if not any(old.get(n) != now[n] for n in now):
+                changed.update(now)
+    out = set(changed)
+    frontier = set(changed)
+    for _ in range(depth):
+        nxt = set()
+        for caller, text in cur.items():
+            if caller in out:
+                continue
+            if any(re.search(r"\b" + re.escape(f) + r"\s*\(", text) for f in frontier):
+                nxt.add(caller)
+        out |= nxt
+        frontier = nxt
+        if not frontier:
+            break
+    return out
